@@ -41,7 +41,7 @@ Contract clauses, evaluated after EVERY operation of every history (C/D/E as `en
      the identity map to a flushed state carrying it, no flushed state is left bound under another key, an existing key-switch entry keeps its
      first original key and a new one records the key the state had before the flush)
      and the contract of `SessionTransaction._restore_snapshot` (contracts/session_restore.py) at every real call made by a rollback: where the assumed
-     precondition holds (every bound state carries the key it is bound under; key-switch entries are (original key, new key) pairs), afterwards a
+     precondition holds (every bound state carries the key it is bound under and is not pending; the session has a current transaction; key-switch entries are (original key, new key) pairs), afterwards a
      key-switched state INSERTed in the rolled-back work has no identity key and every other key-switched state has its original key; calls at which the
      precondition does not hold are counted and left to the other clauses
   X  an operation raises only sqlalchemy.exc.SQLAlchemyError subclasses (the session is then rolled back and the history continues)
@@ -174,6 +174,8 @@ class Hist:
             for st, pair in list(tx._key_switches.items()):
                 if not (isinstance(pair, tuple) and len(pair) == 2 and pair[0] is not None):
                     pre_ok = False
+            if tx.session._transaction is None or any(st in tx.session._new for st in d.values()):
+                pre_ok = False
             if not pre_ok:
                 # the proof's precondition does not hold at this call: the proof says nothing about it (counted, not a failure of the code)
                 h.stats["restore_snapshot_precondition_false"] += 1
